@@ -24,6 +24,7 @@ CONSTANTS Files,        \* set of file names
           TypesOf,      \* [Files -> set of type names]
           OutOf, PkgOf, \* [Files -> output file / package] after applying mappings and defaults ("" = no output name)
           Orders,       \* set of argument sequences to explore
+          Common,       \* type names EVERY file declares in its own output (same-named definitions of different documents)
           D
 
 VARIABLES args, pending, stack, outs, declared, failed      \* args: the argument list of this run (history)
@@ -34,8 +35,8 @@ Init == /\ args \in Orders /\ pending = args /\ stack = <<>> /\ outs = <<>> /\ d
 Conflict(f) == \E o \in DOMAIN outs : o = OutOf[f] /\ outs[o].pkg # PkgOf[f]
 Route(f) ==   \* beginOutput + declarations of f's types
   IF OutOf[f] \in DOMAIN outs
-  THEN [outs EXCEPT ![OutOf[f]].types = @ \cup TypesOf[f]]
-  ELSE outs @@ (OutOf[f] :> [pkg |-> PkgOf[f], types |-> TypesOf[f]])
+  THEN [outs EXCEPT ![OutOf[f]].types = @ \cup TypesOf[f] \cup Common]
+  ELSE outs @@ (OutOf[f] :> [pkg |-> PkgOf[f], types |-> TypesOf[f] \cup Common])
 
 \* process one file: the user's next argument, or the next reference on the stack (depth first)
 Step == /\ ~failed
